@@ -22,7 +22,7 @@ from vf import impl
 from vf.gen import refs as R
 from vf.gen.instance import InstGen
 from vf.gen.schema import SchemaGen
-from vf.obs.fingerprint import fp
+from vf.obs.fingerprint import fp, fps
 from vf.obs.wrap import ScopeLog
 from vf.util import jdump
 
@@ -62,7 +62,7 @@ def shards(tier):
 def floors(tier):
     f = {"histories": 4000, "operations": 60000, "histories_with_legacy_interface_resolver": 500, "abandon_at_scope_depth3plus": 200, "exception_unwound_2plus_scopes": 200,
          "fail_then_succeed_retrievals": 100, "scope_events": 100000, "max_scope_depth": 4, "results_compared": 15000,
-         "results_refres_while_failing": 200}
+         "results_refres_while_failing": 200, "long_lived_resolver_documents": 2000}
     for op in ("is_valid", "exhaust", "validate", "take_close", "take_drop", "throw", "resolve", "resolving", "in_scope",
                "toggle_handler", "toggle_callout"):
         f["op:" + op] = 200
@@ -618,8 +618,56 @@ def failpoint_sweep(ctx, rng, world, LF):
                 return
 
 
+def long_lived_resolver(ctx, n_docs):
+    """One validator that, over its life, retrieves very many distinct documents (an API gateway, a schema registry):
+    however much it has seen, it keeps answering what a fresh validator answers - for its own local references, for
+    documents it retrieved long ago, for store documents."""
+    from jsonschema import RefResolver
+    for d in impl.DRAFTS:
+        idk = impl.IDKW[d]
+        H = R.HANDLER_DIR + "gen/"
+        calls = []
+
+        def handler(url, calls=calls):
+            calls.append(url)
+            k = int(url.split("#")[0].rsplit("/", 1)[1].split(".")[0])
+            return {"type": ["integer", "string", "null"][k % 3], "definitions": {"k": {"enum": [k]}}}
+        S = {idk: R.ROOT_URL, "definitions": {"leaf": {"type": "integer"}, "other": {"type": "string"}},
+             "properties": {"l": {"$ref": "#/definitions/leaf"}, "o": {"items": {"$ref": "#/definitions/other"}},
+                            "s": {"$ref": R.STORE_DIR + "kept.json"}, "g0": {"$ref": H + "0.json"}, "g7": {"$ref": H + "7.json#/definitions/k"}}}
+        store = {R.STORE_DIR + "kept.json": {"type": "null"}}
+
+        def make():
+            return impl.CLS[d](S, resolver=RefResolver.from_schema(S, id_of=impl.CLS[d].ID_OF, store=dict(store), handlers={"vf": handler}))
+        probes = [{"l": "s", "o": [1], "s": 1, "g0": "x", "g7": 8}, {"l": 1, "o": ["s"], "s": None, "g0": 3, "g7": 7}]
+        V = make()
+        early = {"l": "s"}                                              # ONE local reference is resolved early ...
+        first = [fps(V.iter_errors(early))]
+        for k in range(n_docs):
+            try:
+                V.resolver.resolve(H + "%d.json" % k)
+            except Exception as e:
+                ctx.violation("history-dependent-result", {"draft": d, "long_lived_resolver": True, "documents": k}, "retrieval %d raised %s" % (k, type(e).__name__))
+                break
+        ctx.count("long_lived_resolver_documents", n_docs)
+        n_calls = len(calls)
+        got = [outcome(lambda p_=p_: fps(V.iter_errors(p_))) for p_ in probes]
+        refetched = len(calls) - n_calls
+        want = [outcome(lambda p_=p_: fps(make().iter_errors(p_))) for p_ in probes]
+        ctx.case([d, "long-lived-resolver", n_docs], nontrivial=True)
+        # (... the other local references, the store document and the early retrievals are first needed only now)
+        if got != want or fps(V.iter_errors(early)) != first[0]:
+            ctx.violation("history-dependent-result", {"draft": d, "schema": S, "long_lived_resolver": True, "documents": n_docs},
+                          "after retrieving %d distinct documents the validator gives %s, a fresh one %s" % (n_docs, _short(got), _short(want)))
+        elif refetched:
+            ctx.violation("history-dependent-result", {"draft": d, "schema": S, "long_lived_resolver": True, "documents": n_docs},
+                          "documents retrieved earlier (cache_remote on) were fetched again: %r" % calls[n_calls:][:3])
+
+
 def run(ctx):
     impl.quiet()
+    if ctx.shard == 0:
+        long_lived_resolver(ctx, ctx.scale(700, 5000))
     if ctx.tier == "thorough":
         from vf.obs.monitor import LineFaults
         LF = LineFaults()
@@ -659,6 +707,9 @@ def run(ctx):
 
 def replay(ctx, rec):
     impl.quiet()
+    if rec["case"].get("long_lived_resolver"):
+        long_lived_resolver(ctx, int(rec["case"].get("documents", 700)))
+        return
     c = rec["case"]
     w = c["world"]
     world = World(w["draft"], w["schema"], w["store"], w["handler_docs"], w["instances"], w["refs"], w.get("exotic_kinds"))
